@@ -649,7 +649,9 @@ fn run_root_inner<'a>(
                 }
                 core.stats.borrow_mut().busy_jumps += 1;
                 if quiesce > 0 {
-                    patient = core.rng.borrow_mut().chance(1, 2);
+                    // (at most 200 waited-out stretches per run: a run with a thousand timers must not spend
+                    // its poll budget on waiting)
+                    patient = core.rng.borrow_mut().chance(1, 2) && core.stats.borrow().quiescent_points < 200;
                 }
             }
         }
